@@ -152,6 +152,20 @@ func (s Snapshot) Digest() string {
 	return hex.EncodeToString(h.Sum(nil))
 }
 
+// TreeDigest is a canonical hash of a materialisable tree.
+func TreeDigest(t Tree) string {
+	h := sha256.New()
+	for _, k := range core.SortedKeys(t.Files) {
+		fmt.Fprintf(h, "%s\x00%s\x00", k, t.Files[k])
+	}
+	ds := append([]string(nil), t.Dirs...)
+	sort.Strings(ds)
+	for _, d := range ds {
+		fmt.Fprintf(h, "dir\x00%s\x00", d)
+	}
+	return hex.EncodeToString(h.Sum(nil)[:8])
+}
+
 // Diff lists paths whose entry differs between a and b (added, removed, changed).
 func Diff(a, b Snapshot) []string {
 	var out []string
